@@ -1,0 +1,115 @@
+//go:build verif
+
+package arp_spoofer
+
+import (
+	"net"
+
+	"github.com/irai/packet"
+)
+
+// Contracts for the ARP handler (C07, C08, C13).
+
+func spec_handler_ok(h *Handler) bool {
+	return h != nil && h.session != nil && packet.VerifSpecSessionOK(h.session) && h.huntList != nil
+}
+
+// spec_arp_frame: b is a complete Ethernet/ARP frame with the given fields.
+func spec_arp_frame(b []byte, op uint16, ethSrc, ethDst net.HardwareAddr, sender, target packet.Addr) bool {
+	return len(b) == 42 &&
+		b[0] == ethDst[0] && b[1] == ethDst[1] && b[2] == ethDst[2] && b[3] == ethDst[3] && b[4] == ethDst[4] && b[5] == ethDst[5] &&
+		b[6] == ethSrc[0] && b[7] == ethSrc[1] && b[8] == ethSrc[2] && b[9] == ethSrc[3] && b[10] == ethSrc[4] && b[11] == ethSrc[5] &&
+		b[12] == 0x08 && b[13] == 0x06 &&
+		b[14] == 0 && b[15] == 1 && b[16] == 0x08 && b[17] == 0 && b[18] == 6 && b[19] == 4 &&
+		b[20] == byte(op>>8) && b[21] == byte(op) &&
+		b[22] == sender.MAC[0] && b[23] == sender.MAC[1] && b[24] == sender.MAC[2] && b[25] == sender.MAC[3] && b[26] == sender.MAC[4] && b[27] == sender.MAC[5] &&
+		sender.IP.As4() == [4]byte{b[28], b[29], b[30], b[31]} &&
+		b[32] == target.MAC[0] && b[33] == target.MAC[1] && b[34] == target.MAC[2] && b[35] == target.MAC[3] && b[36] == target.MAC[4] && b[37] == target.MAC[5] &&
+		target.IP.As4() == [4]byte{b[38], b[39], b[40], b[41]}
+}
+
+// reply sends exactly one frame: a well-formed ARP reply from the host NIC MAC.
+//
+//verif:props C07 C08 C13
+func verif_contract_arp_spoofer_Handler_reply(h *Handler, dst net.HardwareAddr, sender packet.Addr, target packet.Addr) error {
+	vRequires(spec_handler_ok(h) && len(dst) == 6 && len(sender.MAC) == 6 && len(target.MAC) == 6 && sender.IP.Is4() && target.IP.Is4())
+	vCanary()
+	n0 := vWireCount()
+	vModifiesWire()
+	vModifiesHeap()
+	err := h.reply(dst, sender, target)
+	vEnsures(vWireCount() == n0+1)
+	vEnsures(spec_arp_frame(vWireLast(), packet.ARPOperationReply, h.session.NICInfo.HostAddr4.MAC, dst, sender, target))
+	vEnsures(spec_handler_ok(h))
+	return err
+}
+
+// RequestRaw sends exactly one frame: a well-formed ARP request from the host NIC MAC.
+//
+//verif:props C07 C08 C13
+func verif_contract_arp_spoofer_Handler_RequestRaw(h *Handler, dst net.HardwareAddr, sender packet.Addr, target packet.Addr) error {
+	vRequires(spec_handler_ok(h) && len(dst) == 6 && len(sender.MAC) == 6 && len(target.MAC) == 6 && sender.IP.Is4() && target.IP.Is4())
+	vCanary()
+	n0 := vWireCount()
+	vModifiesWire()
+	vModifiesHeap()
+	err := h.RequestRaw(dst, sender, target)
+	vEnsures(vWireCount() == n0+1)
+	vEnsures(spec_arp_frame(vWireLast(), packet.ARPOperationRequest, h.session.NICInfo.HostAddr4.MAC, dst, sender, target))
+	vEnsures(spec_handler_ok(h))
+	return err
+}
+
+// ProcessPacket: total on every ARP frame Parse accepts (packet.VerifSpecFrameARP
+// is what Parse establishes, proved in package packet); at most one frame is
+// sent and, when one is sent, it is a reply from our NIC MAC to the requester
+// and either (i) the forged "router IP is at our MAC" for a requester that is in
+// the hunt list and asked for the router, or (ii) a probe-reject.
+//
+//verif:props C08 C13
+//verif:timeout 150s
+func verif_lemma_dispatch_arp(h *Handler, frame packet.Frame) {
+	vRequires(spec_handler_ok(h) && packet.VerifSpecFrameARP(frame))
+	vCanary()
+	n0 := vWireCount()
+	arp := packet.ARP(frame.Payload())
+	_, hunted := h.huntList[string(arp[8:14])]
+	router := h.session.NICInfo.RouterAddr4.IP
+	_ = h.ProcessPacket(frame)
+	vAssert(vWireCount() == n0 || vWireCount() == n0+1)
+	if vWireCount() == n0+1 {
+		w := vWireLast()
+		// every frame sent is an ARP reply from our NIC MAC to the sender of the request
+		vAssert(len(w) == 42)
+		vAssert(w[12] == 0x08 && w[13] == 0x06)
+		vAssert(w[20] == 0 && w[21] == 2)
+		vAssert(w[0] == arp[8] && w[1] == arp[9] && w[2] == arp[10] && w[3] == arp[11] && w[4] == arp[12] && w[5] == arp[13])
+		if arp.SrcIP() != packet.IPv4zero {
+			// not a probe: only the spoofing reply is possible, and only to a hunted MAC asking for the router
+			vAssert(hunted && arp.DstIP() == router)
+		}
+	}
+}
+
+//verif:props C13
+func verif_lemma_reply_frame(h *Handler, dst net.HardwareAddr, sender packet.Addr, target packet.Addr) {
+	vRequires(spec_handler_ok(h) && len(dst) == 6 && len(sender.MAC) == 6 && len(target.MAC) == 6 && sender.IP.Is4() && target.IP.Is4())
+	n0 := vWireCount()
+	_ = h.Reply(dst, sender, target)
+	vAssert(vWireCount() == n0+1)
+	w := vWireLast()
+	vAssert(len(w) == 42)
+	vAssert(w[12] == 0x08 && w[13] == 0x06 && w[20] == 0 && w[21] == 2)
+	vAssert(w[0] == dst[0] && w[5] == dst[5])
+}
+
+// engine self-test: two conversions of the same bytes are the same map key
+//
+//verif:props C13
+func verif_lemma_strkey(h *Handler, b []byte) {
+	vRequires(len(b) >= 14 && h != nil && h.huntList != nil)
+	_, a := h.huntList[string(b[8:14])]
+	m := packet.ARP(b).SrcMAC()
+	_, c := h.huntList[string(m)]
+	vAssert(a == c)
+}
